@@ -349,6 +349,7 @@ def run_check(a, prop, tier, seed, spec, scratch, t_start):
         out_lines.append("KNOWN-FINDING: property=%s %s [%s, seen %d time(s) in this run]" % (prop, k.get("what", k["id"]), kid, n))
 
     replay_files = []
+    nondet_notes = []
     min_deadline = time.time() + (60 if tier == "quick" else 240)
     for (rule, sig), items in reported[:4]:
         # smallest failing plan first
@@ -363,9 +364,18 @@ def run_check(a, prop, tier, seed, spec, scratch, t_start):
                 infra.append("confirmation replay of seed %s failed: %s" % (r["seed"], err))
                 continue
             rr = has_violation(res, prop, rule, sig)
-            if rr is None or rr.get("hash") != r.get("hash"):
-                infra.append("determinism: violation %s/%s of seed %s did not replay identically in a fresh process (hash %s vs %s)" % (rule, sig, r["seed"], r.get("hash"), res[0].get("hash") if res else None))
+            if rr is None:
+                infra.append("determinism: violation %s/%s of seed %s did not replay in a fresh process (hash %s vs %s)" % (rule, sig, r["seed"], r.get("hash"), res[0].get("hash") if res else None))
                 continue
+            if rr.get("hash") != r.get("hash"):
+                # the same violation reproduces but the event log differs: the program under test reads a
+                # source of nondeterminism outside the simulator's seams (e.g. a changed tree that calls
+                # crypto/rand or reads the wall clock). Require it to reproduce once more.
+                res2, _, err2 = run_bin(binary, ["-sim.replay", pf], 120, scratch)
+                if err2 or has_violation(res2, prop, rule, sig) is None:
+                    infra.append("determinism: violation %s/%s of seed %s replays only sometimes" % (rule, sig, r["seed"]))
+                    continue
+                nondet_notes.append("violation %s/%s (seed %s) reproduces in every fresh process but the event-log hash varies: the tree reads entropy or time outside the simulator's seams" % (rule, sig, r["seed"]))
             confirmed = (r, v, pf)
             break
         if not confirmed:
@@ -440,6 +450,8 @@ def run_check(a, prop, tier, seed, spec, scratch, t_start):
 
     for l in out_lines:
         print(l)
+    for l in nondet_notes:
+        print("note: " + l)
     print("%s %s: %d worlds, %d judgements, %d distinct non-trivial, %.0f worlds/h, %.1fs wall; violations=%d known=%d" % (
         prop, tier, evaluations, judged, len(distinct), rate, wall, sum(len(i) for _, i in reported), sum(n for _, n in known_seen.values())))
     if infra:
